@@ -97,7 +97,10 @@ def tlc(module, cfg, scratch, workers=1, env=None, timeout=600, simulate=None, d
         coverage=False, deque=False, extra=(), spec_dir=SPEC, seed_=None):
     """Run TLC on spec_dir/module.tla with spec_dir/cfg; return TLCResult."""
     meta = tempfile.mkdtemp(prefix="meta_", dir=scratch.path)
-    cmd = ["tlc"]
+    # same as the `tlc` wrapper on PATH, plus a deep stack for RECURSIVE operators (the launcher only honours
+    # -Xss for the main thread when it is on the command line)
+    cmd = ["java", "-Xss512m", "-XX:+UseParallelGC", "-cp",
+           "/opt/veriftools/tla/tla2tools.jar:/opt/veriftools/tla/CommunityModules-deps.jar", "tlc2.TLC"]
     e = dict(os.environ)
     if deque:
         e["JAVA_TOOL_OPTIONS"] = (e.get("JAVA_TOOL_OPTIONS", "") + " -Dtlc2.tool.queue.IStateQueue=StateDeque").strip()
